@@ -21,7 +21,7 @@ from ..source import dotted_name, enclosing_func, enclosing_stmt
 from ..sqlbind import binding_of, select_column_name
 from ..sqlmodel import conjuncts, walk_expr
 from ..units import DIMENSIONLESS, FlowUnits, UnitError, UnitEval, div, fmt, mul, unit_of_name
-from .c17 import check_output_table, column_role, sql_alias_unit, strip_tolist, vector_dumps, output_table
+from .c17 import resolve_vector, check_output_table, column_role, sql_alias_unit, strip_tolist, vector_dumps, output_table
 
 
 def run(ctx, chk, tier="quick"):
@@ -299,10 +299,13 @@ def _command(ctx, chk, compute):
         ok = False
         desc = "?"
         if dumpc is not None and dumpc.args and qdir is not None:
-            core, rev = strip_tolist(dumpc.args[0])
+            core, rev = resolve_vector(Flow.of(d), dumpc.args[0])
             desc = ast.unparse(dumpc.args[0])
-            final = qdir if not rev else ("DESC" if qdir == "ASC" else "ASC")
-            ok = isinstance(core, ast.Name) and droles.get(core.id) == "simulated" and final == "DESC"
+            if not isinstance(core, ast.Name) or core.id not in droles:
+                chk.indeterminate("C18.O5", where_of(d, wcall), "vector written after the marker, %s, is not one of the curve arrays (possibly converted / reversed)" % desc[:80])
+                continue
+            final = "by value" if rev == "by-value" else (qdir if not rev else ("DESC" if qdir == "ASC" else "ASC"))
+            ok = droles.get(core.id) == "simulated" and final == "DESC"
         chk.ob("C18.O5", ok, where_of(d, wcall), "after marker %r the vector written is %s" % (marker.strip(), desc),
                "the simulated curve from highest to lowest level", key="dump_simulated_recession|vector")
 
